@@ -512,20 +512,132 @@ def run_hist(case):
 
 
 # ------------------------------------------------ thub of a non-iterable
+class _IterableInstances(object):
+  """A class whose INSTANCES are iterable; the class object itself is not."""
+  def __iter__(self):
+    return iter([1, 2])
+
+
+NONITER = OrderedDict([
+  ("int", lambda: 5), ("float", lambda: 2.5), ("none", lambda: None), ("object", object), ("complex", lambda: 1j),
+  ("callable", lambda: len), ("bool", lambda: True), ("lambda", lambda: (lambda v: v)),
+  # class objects: iter(list) raises TypeError - a class is not iterable because its instances are
+  ("class-list", lambda: list), ("class-dict", lambda: dict), ("class-str", lambda: str), ("class-tuple", lambda: tuple),
+  ("class-Stream", lambda: Stream), ("class-user", lambda: _IterableInstances), ("module", lambda: math),
+  ("ellipsis", lambda: Ellipsis), ("notimplemented", lambda: NotImplemented),
+])
+
+
 def gen_noniter(run):
-  for x in ("int", "float", "none", "object", "complex", "callable"):
+  for x in NONITER:
     for n in (0, 1, 2, 3, 7):
       yield (x, n)
 
 
 def run_noniter(case):
   x, n = case
-  v = {"int": 5, "float": 2.5, "none": None, "object": object(),
-       "complex": 1j, "callable": len}[x]
+  v = NONITER[x]()
+  try:
+    iter(v)
+    return bad("harness:noniter", "menu entry is iterable", x, "iterable")
+  except TypeError:
+    pass
   r = thub(v, n)
   if r is not v:
-    return bad("thub:noniterable", "thub of a non-iterable must be that object", x, repr(r))
+    return bad("thub:noniterable", "thub of a non-iterable must be that object", x, type(r).__name__)
   return R(None, True, x)
+
+
+# ------------------------------------------------ tee of every kind of input
+class _Countdown(object):
+  """A hand-written iterator (has __next__, is its own iter)."""
+  def __init__(self, seq):
+    self.seq = list(seq)
+  def __iter__(self):
+    return self
+  def __next__(self):
+    if not self.seq:
+      raise StopIteration
+    return self.seq.pop(0)
+  next = __next__
+
+
+TEE_INPUTS = OrderedDict([
+  ("stream", lambda q: Stream(list(q))), ("stream-copy", lambda q: Stream(list(q)).copy()),
+  ("generator", lambda q: (v for v in list(q))), ("list-iterator", lambda q: iter(list(q))),
+  ("tuple-iterator", lambda q: iter(tuple(q))), ("islice", lambda q: itertools.islice(list(q) + [99], len(q))),
+  ("chain", lambda q: itertools.chain(list(q)[:1], list(q)[1:])), ("iter-of-stream", lambda q: iter(Stream(list(q)))),
+  ("raw-tee-output", lambda q: itertools.tee(iter(list(q)), 1)[0]), ("map", lambda q: map(lambda v: v, list(q))),
+  ("zip-first", lambda q: (a for a, in zip(list(q)))), ("reversed", lambda q: reversed(list(q)[::-1])),
+  ("dict-keyiterator", lambda q: iter(dict.fromkeys(q))), ("user-iterator", lambda q: _Countdown(q)),
+  ("hub-use", lambda q: iter(thub(list(q), 1))), ("lit-count-limited", lambda q: itertools.takewhile(lambda v: True, list(q))),
+  # not iterators: by the documented contract the same object comes back n times
+  ("list", lambda q: list(q)), ("tuple", lambda q: tuple(q)), ("number", lambda q: 7),
+])
+
+
+def _schedules(n, pulls):
+  """All orders in which n outputs can be asked `pulls` items each."""
+  def rec(left, acc):
+    if not any(left):
+      yield tuple(acc)
+      return
+    for i in range(n):
+      if left[i]:
+        left[i] -= 1
+        acc.append(i)
+        for r in rec(left, acc):
+          yield r
+        acc.pop()
+        left[i] += 1
+  return rec([pulls] * n, [])
+
+
+def gen_tee_inputs(run):
+  for kind in TEE_INPUTS:
+    for n in (0, 1, 2, 3):
+      for route in ("positional", "keyword"):
+        yield (kind, n, route)
+
+
+def run_tee_inputs(case):
+  kind, n, route = case
+  seq = [3, 5, 8] if n < 3 else [3, 5]
+  def mk():
+    src = TEE_INPUTS[kind](seq)
+    return src, (lit.tee(src, n) if route == "positional" else lit.tee(data=src, n=n))
+  src, outs = mk()
+  if not isinstance(outs, tuple) or len(outs) != n:
+    return bad("tee:count", "tee(data, n) gives n outputs", n, repr(outs)[:200])
+  from collections.abc import Iterator
+  is_iterator = isinstance(src, (Stream, Iterator))
+  if not is_iterator:
+    for o in outs:
+      if o is not src:
+        return bad("tee:non-iterator", "tee of something that is not an iterator hands that object back n times", type(src).__name__, type(o).__name__)
+    return R(None, False, ("same-object", kind))
+  for o in outs:
+    if not isinstance(o, Stream):
+      return bad("tee:kind", "every tee output of an iterator is a Stream", "Stream", type(o).__name__)
+  if n == 0:
+    return R(None, False, ("no-output", kind))
+  pulls = len(seq) + 1               # one more than there is: the end must be seen by every output too
+  count = 0
+  for sched in _schedules(n, pulls):
+    src, outs = mk()
+    its = [iter(o) for o in outs]
+    got = [[] for _ in outs]
+    for i in sched:
+      try:
+        got[i].append(next(its[i]))
+      except StopIteration:
+        got[i].append("END")
+    count += 1
+    for i in range(n):
+      if got[i] != seq + ["END"]:
+        return bad("tee:independent", "every tee output yields the whole sequence whatever the order of consumption "
+                   "(input: %s)" % kind, {"schedule": list(sched), "each": seq + ["END"]}, got)
+  return R(None, n >= 2, (kind, n), count)
 
 
 # ------------------------------------------------------------ calling routes
@@ -704,6 +816,8 @@ KINDS = OrderedDict([
   ("hist", Kind(None, run_hist, chunk=16, timeout=30,
                 rule="one case = one state (history); every enabled letter applied from it, then all handles drained")),
   ("noniter", Kind(gen_noniter, run_noniter, rule="thub(x, n) is x for non-iterables")),
+  ("tee-inputs", Kind(gen_tee_inputs, run_tee_inputs, chunk=8,
+                      rule="tee of every kind of iterator (19 input kinds) x n 0..3 x every order of single-item consumption")),
   ("call-routes", Kind(gen_routes, run_routes, chunk=1,
                        rule="each function with every documented parameter set: all positional / all keyword / every split must agree")),
   ("long", Kind(gen_long, run_long, chunk=20, rule="3-operation permutations with counts 64..2500 on streams of 5000 items / endless, list model")),
